@@ -118,7 +118,8 @@ def key_of(sc):
         return "0" if n == 0 else "<=cap" if n <= cap else "<=2cap" if n <= 2 * cap else ">2cap"
     return "in=%s out=%s/%s handler=%s causes=%s flood=%s reconnect=%s up=%s calls=%s%s" % (
         cls(sc["in"]), cls(sc["out"]), sc["out_by"], sc["handler"], "+".join(sc["causes"]), sc["flood"], sc["reconnect"], sc["connect_while_up"],
-        sc.get("calls", ""), (" tracking" if sc["tracking"] else "") + (" storm" if sc.get("storm") else ""))
+        sc.get("calls", ""), (" tracking" if sc["tracking"] else "") + (" storm" if sc.get("storm") else "") + (" disc-close" if sc.get("disc_close") else "")
+        + (" lingering-bg-DISCONNECTED" if sc.get("bg_disc") else "") + ((" after-failed-" + sc["fail_first"]) if sc.get("fail_first") else ""))
 
 
 def collect(ctx, results, props):
